@@ -253,8 +253,12 @@ func table(durations []string) []entry {
 			return c
 		}},
 		{FamHash, 3, "hget", func(t *rapid.T, p *Pool) []string { return []string{"hget", p.key(t), p.member(t)} }},
-		{FamHash, 2, "hmget", func(t *rapid.T, p *Pool) []string { return append([]string{"hmget", p.key(t)}, nonEmpty(p.members(t, 1, 4), p, t)...) }},
-		{FamHash, 4, "hdel", func(t *rapid.T, p *Pool) []string { return append([]string{"hdel", p.key(t)}, nonEmpty(p.members(t, 1, 3), p, t)...) }},
+		{FamHash, 2, "hmget", func(t *rapid.T, p *Pool) []string {
+			return append([]string{"hmget", p.key(t)}, nonEmpty(p.members(t, 1, 4), p, t)...)
+		}},
+		{FamHash, 4, "hdel", func(t *rapid.T, p *Pool) []string {
+			return append([]string{"hdel", p.key(t)}, nonEmpty(p.members(t, 1, 3), p, t)...)
+		}},
 		{FamHash, 3, "hgetall", func(t *rapid.T, p *Pool) []string { return []string{"hgetall", p.key(t)} }},
 		{FamHash, 1, "hkeys", func(t *rapid.T, p *Pool) []string { return []string{"hkeys", p.key(t)} }},
 		{FamHash, 1, "hvals", func(t *rapid.T, p *Pool) []string { return []string{"hvals", p.key(t)} }},
@@ -276,8 +280,12 @@ func table(durations []string) []entry {
 		{FamList, 2, "lclear", func(t *rapid.T, p *Pool) []string { return []string{"lclear", p.key(t)} }},
 		{FamList, 2, "lkeyexist", func(t *rapid.T, p *Pool) []string { return []string{"lkeyexist", p.key(t)} }},
 
-		{FamSet, 6, "sadd", func(t *rapid.T, p *Pool) []string { return append([]string{"sadd", p.key(t)}, nonEmpty(p.members(t, 1, 4), p, t)...) }},
-		{FamSet, 4, "srem", func(t *rapid.T, p *Pool) []string { return append([]string{"srem", p.key(t)}, nonEmpty(p.members(t, 1, 3), p, t)...) }},
+		{FamSet, 6, "sadd", func(t *rapid.T, p *Pool) []string {
+			return append([]string{"sadd", p.key(t)}, nonEmpty(p.members(t, 1, 4), p, t)...)
+		}},
+		{FamSet, 4, "srem", func(t *rapid.T, p *Pool) []string {
+			return append([]string{"srem", p.key(t)}, nonEmpty(p.members(t, 1, 3), p, t)...)
+		}},
 		{FamSet, 2, "spop", func(t *rapid.T, p *Pool) []string { return []string{"spop", p.key(t)} }},
 		{FamSet, 2, "spopn", func(t *rapid.T, p *Pool) []string { return []string{"spop", p.key(t), smallCount(t)} }},
 		{FamSet, 1, "srandmember", func(t *rapid.T, p *Pool) []string { return []string{"srandmember", p.key(t)} }},
@@ -296,22 +304,39 @@ func table(durations []string) []entry {
 			return c
 		}},
 		{FamZSet, 3, "zincrby", func(t *rapid.T, p *Pool) []string { return []string{"zincrby", p.key(t), p.score(t), p.member(t)} }},
-		{FamZSet, 4, "zrem", func(t *rapid.T, p *Pool) []string { return append([]string{"zrem", p.key(t)}, nonEmpty(p.members(t, 1, 3), p, t)...) }},
+		{FamZSet, 4, "zrem", func(t *rapid.T, p *Pool) []string {
+			return append([]string{"zrem", p.key(t)}, nonEmpty(p.members(t, 1, 3), p, t)...)
+		}},
 		{FamZSet, 2, "zscore", func(t *rapid.T, p *Pool) []string { return []string{"zscore", p.key(t), p.member(t)} }},
 		{FamZSet, 3, "zcard", func(t *rapid.T, p *Pool) []string { return []string{"zcard", p.key(t)} }},
-		{FamZSet, 2, "zcount", func(t *rapid.T, p *Pool) []string { return []string{"zcount", p.key(t), p.scoreBound(t, false), p.scoreBound(t, true)} }},
-		{FamZSet, 3, "zrange", func(t *rapid.T, p *Pool) []string { return maybeWS(t, []string{"zrange", p.key(t), index(t), index(t)}) }},
-		{FamZSet, 2, "zrevrange", func(t *rapid.T, p *Pool) []string { return maybeWS(t, []string{"zrevrange", p.key(t), index(t), index(t)}) }},
+		{FamZSet, 2, "zcount", func(t *rapid.T, p *Pool) []string {
+			return []string{"zcount", p.key(t), p.scoreBound(t, false), p.scoreBound(t, true)}
+		}},
+		{FamZSet, 3, "zrange", func(t *rapid.T, p *Pool) []string {
+			return maybeWS(t, []string{"zrange", p.key(t), index(t), index(t)})
+		}},
+		{FamZSet, 2, "zrevrange", func(t *rapid.T, p *Pool) []string {
+			return maybeWS(t, []string{"zrevrange", p.key(t), index(t), index(t)})
+		}},
 		{FamZSet, 3, "zrangebyscore", func(t *rapid.T, p *Pool) []string {
 			return maybeLimit(t, maybeWS(t, []string{"zrangebyscore", p.key(t), p.scoreBound(t, false), p.scoreBound(t, true)}))
 		}},
 		{FamZSet, 2, "zrevrangebyscore", func(t *rapid.T, p *Pool) []string {
 			return maybeLimit(t, maybeWS(t, []string{"zrevrangebyscore", p.key(t), p.scoreBound(t, true), p.scoreBound(t, false)}))
 		}},
+		// whole-range queries with LIMIT: the place where offset / count handling shows on a set with several members
+		{FamZSet, 1, "zrevrangebyscore", func(t *rapid.T, p *Pool) []string {
+			return forceLimit(t, maybeWS(t, []string{"zrevrangebyscore", p.key(t), "+inf", "-inf"}))
+		}},
+		{FamZSet, 1, "zrangebyscore", func(t *rapid.T, p *Pool) []string {
+			return forceLimit(t, maybeWS(t, []string{"zrangebyscore", p.key(t), "-inf", "+inf"}))
+		}},
 		{FamZSet, 2, "zrangebylex", func(t *rapid.T, p *Pool) []string {
 			return maybeLimit(t, []string{"zrangebylex", p.key(t), p.lexBound(t, false), p.lexBound(t, true)})
 		}},
-		{FamZSet, 1, "zlexcount", func(t *rapid.T, p *Pool) []string { return []string{"zlexcount", p.key(t), p.lexBound(t, false), p.lexBound(t, true)} }},
+		{FamZSet, 1, "zlexcount", func(t *rapid.T, p *Pool) []string {
+			return []string{"zlexcount", p.key(t), p.lexBound(t, false), p.lexBound(t, true)}
+		}},
 		{FamZSet, 2, "zrank", func(t *rapid.T, p *Pool) []string { return []string{"zrank", p.key(t), p.member(t)} }},
 		{FamZSet, 1, "zrevrank", func(t *rapid.T, p *Pool) []string { return []string{"zrevrank", p.key(t), p.member(t)} }},
 		{FamZSet, 2, "zremrangebyrank", func(t *rapid.T, p *Pool) []string { return []string{"zremrangebyrank", p.key(t), index(t), index(t)} }},
@@ -360,6 +385,12 @@ func maybeWS(t *rapid.T, c []string) []string {
 		return append(c, "withscores")
 	}
 	return c
+}
+
+func forceLimit(t *rapid.T, c []string) []string {
+	off := rapid.SampledFrom([]string{"0", "1", "2", "3"}).Draw(t, "off")
+	cnt := rapid.SampledFrom([]string{"1", "2", "-1", "-1", "10"}).Draw(t, "cnt")
+	return append(c, "limit", off, cnt)
 }
 
 func maybeLimit(t *rapid.T, c []string) []string {
